@@ -225,6 +225,14 @@ def run(ctx):
                     continue
                 cases.append((tag + '~layout', toks, flag, ev))
                 work.append((text.replace(' ', gap), flag, ['select']))
+            # ... and comments as gaps (a comment is white space to every SQL reader), between all tokens and only inside
+            # the two-word operators
+            if multi.search(text):
+                for gap in (' /* c */ ', ' -- c\n ', '/**/'):
+                    cases.append((tag + '~layout', toks, flag, ev))
+                    work.append((text.replace(' ', gap), flag, ['select']))
+                    cases.append((tag + '~layout', toks, flag, ev))
+                    work.append((multi.sub(lambda m_: m_.group(0).replace(' ', gap), text), flag, ['select', 'where']))
     # literal operands: the same trees with numbers in place of (some) columns.  Trees with a unary minus are left out: the
     # grammars fold `- <number>` into a negative constant, which is C04's subject.
     def has_uminus(f):
